@@ -204,6 +204,7 @@ package disk
 
 //@ func store.GetMetadata
 //@   requires sshape(s) && md != nil
+//@   modifies every metadata.Persist.Value, every metadata.LastAccessTime.Time
 //@   ensures missing: !(key in s.blobs) ==> !result0 && result1 != nil
 //@   ensures out_of_scope: (key in s.blobs) && !inscope(s.blobs[key], scope) ==> !result0 && result1 != nil
 //@   ensures found: result0 ==> result1 == nil
